@@ -75,13 +75,14 @@ def check_property_theorems(pid):
     return len(names), min(printed, len(names)), sorted(set(axioms)), names
 
 
-def build_harness():
+def build_harness(race=False):
     os.makedirs(BUILD, exist_ok=True)
     hdir = os.path.join(ROOT, "harness")
     gosum = os.path.join(hdir, "go.sum")
     if not os.path.exists(gosum):
         shutil.copy(os.path.join(REPO, "go.sum"), gosum)
-    rc, out = sh(["go", "build", "-tags", "verif", "-o", os.path.join(BUILD, "hx"), "./cmd/hx"], cwd=hdir, env=GOENV, timeout=1200)
+    cmd = ["go", "build", "-tags", "verif"] + (["-race"] if race else []) + ["-o", os.path.join(BUILD, "hx_race" if race else "hx"), "./cmd/hx"]
+    rc, out = sh(cmd, cwd=hdir, env=GOENV, timeout=1200)
     return rc, out
 
 
@@ -213,10 +214,25 @@ def correspondence(pid, tier, seed, ev, violations, replay_case=None):
     rundir = os.path.join(BUILD, "run", pid)
     shutil.rmtree(rundir, ignore_errors=True)
     os.makedirs(rundir)
-    cmd = [os.path.join(BUILD, "hx"), "-prop", pid, "-tier", tier, "-seed", str(seed), "-out", rundir]
+    race = bool(PROPS[pid].get("race"))
+    cmd = [os.path.join(BUILD, "hx_race" if race else "hx"), "-prop", pid, "-tier", tier, "-seed", str(seed), "-out", rundir]
     if replay_case:
         cmd += ["-replay", replay_case]
-    rc, out = sh(cmd, env=GOENV, timeout=7200)
+    env = dict(GOENV)
+    if race:
+        env["GORACE"] = "halt_on_error=0 log_path=%s" % os.path.join(rundir, "race")
+    rc, out = sh(cmd, env=env, timeout=7200)
+    if race:
+        reports = []
+        for f in sorted(glob.glob(os.path.join(rundir, "race.*"))):
+            txt = open(f).read()
+            reports += [r for r in txt.split("==================") if "DATA RACE" in r]
+        in_ice = [r for r in reports if "blugelabs/ice" in r]
+        ev["coverage"]["race_detector_reports"] = len(reports)
+        ev["coverage"]["race_detector_reports_inside_ice"] = len(in_ice)
+        for r in in_ice[:3]:
+            violations.append({"kind": "data-race", "failing_input": True, "detail": r.strip()[:4000],
+                               "input": {"seed": seed, "tier": tier, "note": "schedule dependent: re-run the check with the same seed"}})
     if rc != 0:
         # the harness itself crashed on the real code: that is an observation about the code
         violations.append({"kind": "harness-crash", "detail": out[-3000:], "failing_input": False})
@@ -247,6 +263,11 @@ def correspondence(pid, tier, seed, ev, violations, replay_case=None):
         if gf.get("prop") in ("", pid):
             violations.append({"kind": "go-side-check", "failing_input": True, "case_index": gf["case"],
                                "case": cases[gf["case"]] if gf["case"] < len(cases) else None, "detail": gf["what"]})
+    sp = stats.get("special")
+    if sp:
+        for fl in (sp.get("failures") or []):
+            violations.append({"kind": "special-exploration", "failing_input": True, "detail": fl["what"], "input": fl.get("input"),
+                               "signature": fl.get("signature")})
     vm = vm_sample(rundir) if not replay_case else {"cases": 0, "mismatches": []}
     for i in vm["mismatches"]:
         if exps[i] == mods[i]:
@@ -263,6 +284,15 @@ def correspondence(pid, tier, seed, ev, violations, replay_case=None):
     cov["vm_compute_sample"] = {"cases": vm["cases"], "mismatches": len(vm["mismatches"])}
     if stats.get("extra"):
         cov["extra"] = stats["extra"]
+    if sp:
+        cov["model_compared_cases"] = stats["cases"]
+        cov["evaluations"] = stats["cases"] + sp["evaluations"]
+        cov["distinct_nontrivial"] = stats["distinct_nontrivial"] + sp["distinct_nontrivial"]
+        cov["rule"] = "(a) " + sp["rule"] + "; (b) model-compared scenarios: " + stats["rule"]
+        cov["samples"] = (sp.get("samples") or []) + stats["samples"]
+        cov["special_exploration"] = {k: sp[k] for k in ("evaluations", "distinct", "distinct_nontrivial", "extra")}
+        if (sp.get("extra") or {}).get("exhaustive_per_workload") or (sp.get("extra") or {}).get("exhaustive_per_sequence"):
+            cov["exhaustive"] = False  # exhaustive per workload/sequence only, not over all workloads
 
 
 def run_check(pid, tier, seed):
@@ -277,7 +307,7 @@ def run_check(pid, tier, seed):
     coq_build()
     nobl, ndis, axioms, names = check_property_theorems(pid)
     tie = run_translator(pid)
-    rc, out = build_harness()
+    rc, out = build_harness(race=bool(P.get("race")))
     if rc != 0:
         # /repo no longer compiles with the hooks: not a property violation we can exhibit
         violations.append({"kind": "harness-build", "failing_input": False, "detail": out[-3000:],
